@@ -34,7 +34,8 @@
 #include "specs/chacha_spec.h"
 #include "crypto/cipher/chacha.h"
 
-/* -DVF_CC_PART_C: counter and frame clauses only (unbounded safety jobs of the callers) */
+/* -DVF_CC_PART_C: counter and frame clauses only (was used by the unbounded-blocks_count attempt,
+ * which did not close and is not registered: obligations/C08.json "not_covered") */
 #if !defined(VF_CC_PART_W) && !defined(VF_CC_PART_B) && !defined(VF_CC_PART_C)
 #define VF_CC_PART_W
 #define VF_CC_PART_B
